@@ -1,0 +1,101 @@
+//go:build verif
+
+// Contracts for the shared-memory allocator (properties C34, C35), read by the verifier in
+// /verif (govc). Comment-only: with the `verif` tag off this file does not exist for the
+// compiler, and with it on it contributes no code.
+
+package vgirpc
+
+// ---- abstract view of the allocation table (header bytes decoded little-endian) ----
+//
+//@ opaque pure func cnt(s *ShmSegment) int = u32at(s.data, 16)
+//@ opaque pure func entOff(s *ShmSegment, k int) int = u64at(s.data, 24+16*k)
+//@ opaque pure func entLen(s *ShmSegment, k int) int = u64at(s.data, 32+16*k)
+//@ pure func segOK(s *ShmSegment) bool = s != nil && len(s.data) == s.size && s.size >= 65536
+//@ pure func endOf(s *ShmSegment, k int) int = k <= 0 ? 65536 : entOff(s,k-1)+entLen(s,k-1)
+//@ pure func gapBefore(s *ShmSegment, k int) int = entOff(s,k) - endOf(s,k)
+//@ pure func wfBounds(s *ShmSegment) bool = 0 <= cnt(s) && cnt(s) <= 4094 && (forall k int :: 0 <= k && k < cnt(s) ==>
+//@     entOff(s,k) >= 65536 && entLen(s,k) > 0 && entOff(s,k)+entLen(s,k) <= s.size)
+//@ pure func wfSorted(s *ShmSegment) bool = forall j int, k int :: 0 <= j && j < k && k < cnt(s) ==> entOff(s,j)+entLen(s,j) <= entOff(s,k)
+//@ pure func wfTable(s *ShmSegment) bool = wfBounds(s) && wfSorted(s)
+//@ pure func noFit(s *ShmSegment, size int) bool = size <= 0 || cnt(s) >= 4094 ||
+//@     ((forall k int :: 0 <= k && k < cnt(s) ==> gapBefore(s,k) < size) && s.size - endOf(s,cnt(s)) < size)
+
+//@ func (*ShmSegment).numAllocs
+//@   property C34
+//@   reveal cnt
+//@   requires segOK(s)
+//@   ensures result == cnt(s)
+
+//@ func (*ShmSegment).readAllocs
+//@   property C34
+//@   reveal cnt, entOff, entLen
+//@   requires segOK(s) && cnt(s) <= 4094
+//@   fresh
+//@   ensures len(result) == cnt(s)
+//@   ensures forall k int :: 0 <= k && k < cnt(s) ==> result[k][0] == entOff(s,k) && result[k][1] == entLen(s,k)
+//@   loop 0 invariant 0 <= i && i <= n
+//@   loop 0 invariant forall k int :: 0 <= k && k < i ==> out[k][0] == entOff(s,k) && out[k][1] == entLen(s,k)
+
+//@ func (*ShmSegment).writeAllocs
+//@   property C34
+//@   reveal cnt, entOff, entLen
+//@   requires segOK(s) && len(allocs) <= 4094
+//@   modifies s.data[16:20], s.data[24:24+16*len(allocs)]
+//@   ensures cnt(s) == len(allocs)
+//@   ensures forall k int :: 0 <= k && k < len(allocs) ==> entOff(s,k) == allocs[k][0] && entLen(s,k) == allocs[k][1]
+//@   loop 0 invariant cnt(s) == len(allocs)
+//@   loop 0 invariant forall k int :: 0 <= k && k <= rangeindex ==> entOff(s,k) == allocs[k][0] && entLen(s,k) == allocs[k][1]
+
+// allocateLocked: the table stays well formed; success inserts (result0,size) at the lowest
+// gap that fits (first fit); failure leaves the table alone and happens only when nothing fits.
+//
+//@ func (*ShmSegment).allocateLocked
+//@   property C34
+//@   requires segOK(s) && wfTable(s)
+//@   modifies s.data[16:20], s.data[24:24+16*(cnt(s)+1)]
+//@   ensures [wfbounds] wfBounds(s)
+//@   ensures [wfsorted] wfSorted(s)
+//@   ensures [count] result1 ==> size > 0 && cnt(s) == old(cnt(s)) + 1 && result0 >= 65536 && result0 + size <= s.size
+//@   ensures [below] result1 ==> forall k int :: 0 <= k && k < old(cnt(s)) && old(entOff(s,k)) < result0 ==>
+//@       entOff(s,k) == old(entOff(s,k)) && entLen(s,k) == old(entLen(s,k))
+//@   ensures [above] result1 ==> forall k int :: 0 <= k && k < old(cnt(s)) && old(entOff(s,k)) >= result0 ==>
+//@       entOff(s,k+1) == old(entOff(s,k)) && entLen(s,k+1) == old(entLen(s,k))
+//@   ensures [inserted] result1 ==> forall k int :: 0 <= k && k <= old(cnt(s)) &&
+//@       (k == 0 || old(entOff(s,k-1)) < result0) && (k == old(cnt(s)) || old(entOff(s,k)) >= result0) ==>
+//@       entOff(s,k) == result0 && entLen(s,k) == size
+//@   ensures [firstfit] result1 ==> forall k int :: 0 <= k && k < old(cnt(s)) && old(entOff(s,k)) < result0 ==> old(gapBefore(s,k)) < size
+//@   ensures [nooverlap] result1 ==> forall k int :: 0 <= k && k < old(cnt(s)) ==>
+//@       old(entOff(s,k)) + old(entLen(s,k)) <= result0 || result0 + size <= old(entOff(s,k))
+//@   ensures [fail] !result1 ==> result0 == 0 && cnt(s) == old(cnt(s)) && old(noFit(s, size)) &&
+//@       (forall k int :: 0 <= k && k < cnt(s) ==> entOff(s,k) == old(entOff(s,k)) && entLen(s,k) == old(entLen(s,k)))
+//@   loop 0 invariant rangeindex < len(allocs)
+//@   loop 0 invariant prevEnd == endOf(s, rangeindex+1)
+//@   loop 0 invariant forall k int :: 0 <= k && k <= rangeindex ==> gapBefore(s,k) < size
+
+//@ func (*ShmSegment).canFitLocked
+//@   property C34
+//@   requires segOK(s) && wfTable(s)
+//@   ensures !result ==> noFit(s, size)
+//@   ensures result ==> !noFit(s, size)
+//@   loop 0 invariant rangeindex < len(allocs)
+//@   loop 0 invariant prevEnd == endOf(s, rangeindex+1)
+//@   loop 0 invariant forall k int :: 0 <= k && k <= rangeindex ==> gapBefore(s,k) < size
+
+// freeAtLocked removes exactly the entry that starts at offset (unique in a well-formed
+// table); an error leaves the table alone and means no entry starts there.
+//
+//@ func (*ShmSegment).freeAtLocked
+//@   property C34
+//@   requires segOK(s) && wfTable(s)
+//@   modifies s.data[16:20], s.data[24:24+16*cnt(s)]
+//@   ensures [wfbounds] wfBounds(s)
+//@   ensures [wfsorted] wfSorted(s)
+//@   ensures [removed] result == nil ==> cnt(s) == old(cnt(s)) - 1 &&
+//@       (forall k int :: 0 <= k && k < old(cnt(s)) && old(entOff(s,k)) < offset ==> entOff(s,k) == old(entOff(s,k)) && entLen(s,k) == old(entLen(s,k))) &&
+//@       (forall k int :: 1 <= k && k < old(cnt(s)) && old(entOff(s,k)) > offset ==> entOff(s,k-1) == old(entOff(s,k)) && entLen(s,k-1) == old(entLen(s,k)))
+//@   ensures [gone] result == nil ==> forall k int :: 0 <= k && k < cnt(s) ==> entOff(s,k) != offset
+//@   ensures [err] result != nil ==> cnt(s) == old(cnt(s)) &&
+//@       (forall k int :: 0 <= k && k < cnt(s) ==> entOff(s,k) == old(entOff(s,k)) && entLen(s,k) == old(entLen(s,k)) && entOff(s,k) != offset)
+//@   loop 0 invariant rangeindex < len(allocs)
+//@   loop 0 invariant forall k int :: 0 <= k && k <= rangeindex ==> entOff(s,k) != offset
